@@ -1,18 +1,18 @@
-import Nstd.Variant.DeepOps
+import Nstd.Variant.DeepWalk
 /-
   `dstep` (deep model) against `specStep` (store of values).
 -/
 namespace Nstd.Variant.Deep
 open Nstd.Variant
 
-/-- the operations covered by the deep refinement theorem: everything that acts on a variable
-    itself (any nesting of the values; copies and elements share blocks) -/
+/-- the operations covered by the deep refinement theorem (any nesting of the values, any path;
+    copies and elements share blocks) -/
 def OpSup : Op → Prop
   | .new _ (.lit x) => LitOk x
   | .copy _ _ => True
   | .get _ _ _ => True
   | .swap _ _ => True
-  | .mut _ [] lf => LeafSupS lf
+  | .mut _ _ lf => LeafSupS lf
   | _ => False
 
 theorem dgood_other {s : DState} {σ : Store} {g g' : Nat → Val} {v : Nat} {c' : Cell} {y : Val} {h' : Heap}
@@ -232,52 +232,53 @@ theorem dstep_refines (ds : DblSem) {s : DState} {σ σ' : Store} (hg : DGood s 
           · rw [upd_other _ _ _ _ euw, hoth2 u hu euw]; exact hrel u hu
     · cases hspec
   | «mut» v p lf =>
-    cases p with
-    | cons st p => exact absurd hsup (by simp [OpSup])
-    | nil =>
-      have hls : LeafSupS lf := hsup
-      simp only [specStep] at hspec
+    have hls : LeafSupS lf := hsup
+    simp only [specStep] at hspec
+    split at hspec
+    · rename_i hc
+      obtain ⟨hv, hall, hmok⟩ := hc
       split at hspec
-      · rename_i hc
-        obtain ⟨hv, hall, hmok⟩ := hc
-        split at hspec
-        · cases hspec
-        · cases hy : updPath [] ((lf.eval σ).apply ds) (σ v) with
-          | none => simp [hy] at hspec
-          | some y =>
-            simp only [hy, Option.map, Option.some.injEq] at hspec; subst hspec
-            simp only [updPath] at hy
-            have hv7 := lt_slots hv
-            -- assignment from a variable: the sharing path
-            have assignVarCase : ∀ w, lf = .assign (.var w) → ∃ s', dstep ds s (.mut v [] lf) = some s' ∧ DGood s' (upd σ v y) := by
-              intro w hlf
-              subst hlf
-              simp only [LeafS.eval, Src.eval, Leaf.apply, Option.some.injEq] at hy
-              subst hy
-              have hw : w < nvars := allLt_mem hall (by simp [LeafS.vars, Src.vars])
-              by_cases hvw : v = w
-              · subst hvw
-                refine ⟨s, by simp [dstep], g, i, ?_, htmp⟩
-                intro u hu
-                by_cases eu : u = v
-                · subst eu; simp only [upd_same]; exact hrel u hu
-                · simp only [upd_other _ _ _ _ eu]; exact hrel u hu
-              · obtain ⟨s', r, g', _⟩ := assign_dgood hg0 v hv (s.vars w) (var_cellOk i w) (σ w)
-                  (fun g2 _ hrel2 => hrel2 w hw) (s.h.next + allocBound (.mut v [] (.assign (.var w))) + 1)
-                  (by have := liveCount_le_next s.h; omega)
-                exact ⟨s', by simp only [dstep, hvw, if_false]; exact r, g'⟩
-            -- everything else runs on the held cell
-            have heldCase : (∀ w, lf ≠ .assign (.var w)) → ∃ s', dstep ds s (.mut v [] lf) = some s' ∧ DGood s' (upd σ v y) := by
-              intro hna
-              have hd := held_take i v hv7
-              have hnv : v ∉ lf.vars := by
-                intro hin
-                have hm : mutOk v [] lf = true := hmok
-                have hcon : lf.vars.contains v = true := by simpa using hin
+      · cases hspec
+      · cases hy : updPath p ((lf.eval σ).apply ds) (σ v) with
+        | none => simp [hy] at hspec
+        | some y =>
+          simp only [hy, Option.map, Option.some.injEq] at hspec; subst hspec
+          have hv7 := lt_slots hv
+          -- assignment from a variable to the variable itself: the sharing path
+          have assignVarCase : ∀ w, p = [] → lf = .assign (.var w) →
+              ∃ s', dstep ds s (.mut v p lf) = some s' ∧ DGood s' (upd σ v y) := by
+            intro w hp hlf
+            subst hp hlf
+            simp only [updPath, LeafS.eval, Src.eval, Leaf.apply, Option.some.injEq] at hy
+            subst hy
+            have hw : w < nvars := allLt_mem hall (by simp [LeafS.vars, Src.vars])
+            by_cases hvw : v = w
+            · subst hvw
+              refine ⟨s, by simp [dstep], g, i, ?_, htmp⟩
+              intro u hu
+              by_cases eu : u = v
+              · subst eu; simp only [upd_same]; exact hrel u hu
+              · simp only [upd_other _ _ _ _ eu]; exact hrel u hu
+            · obtain ⟨s', r, g', _⟩ := assign_dgood hg0 v hv (s.vars w) (var_cellOk i w) (σ w)
+                (fun g2 _ hrel2 => hrel2 w hw) (s.h.next + allocBound (.mut v [] (.assign (.var w))) + 1)
+                (by have := liveCount_le_next s.h; omega)
+              exact ⟨s', by simp only [dstep, hvw, if_false]; exact r, g'⟩
+          -- everything else runs on the held cell, through the nested walk
+          have heldCase : (∀ w, ¬ (p = [] ∧ lf = .assign (.var w))) →
+              ∃ s', dstep ds s (.mut v p lf) = some s' ∧ DGood s' (upd σ v y) := by
+            intro hna
+            have hd := held_take i v hv7
+            have hnv : v ∉ lf.vars := by
+              intro hin
+              have hm : mutOk v p lf = true := hmok
+              have hcon : lf.vars.contains v = true := by simpa using hin
+              cases p with
+              | cons st p' => simp [mutOk, hcon] at hm; exact hm hin
+              | nil =>
                 cases lf with
                 | assign src =>
                   cases src with
-                  | var w => exact hna w rfl
+                  | var w => exact hna w ⟨rfl, rfl⟩
                   | lit x => simp [LeafS.vars, Src.vars] at hin
                 | set e =>
                   cases e with
@@ -295,33 +296,37 @@ theorem dstep_refines (ds : DblSem) {s : DState} {σ σ' : Store} (hg : DGood s 
                 | mput k src => exact hls
                 | mrem k => exact hls
                 | sapp t => exact hls
-              have hsrc : ∀ w ∈ lf.vars, s.vars w = upd s.vars v .null w ∧ w < nslots := by
-                intro w hw
-                have : w ≠ v := by intro e; subst e; exact hnv hw
-                exact ⟨(upd_other _ _ _ _ this).symm, lt_slots (allLt_mem hall hw)⟩
-              have hev : lf.eval (fun w => absCell g (upd s.vars v .null w)) = lf.eval σ := by
-                apply LeafS.eval_congr
-                intro w hw
-                have : w ≠ v := by intro e; subst e; exact hnv hw
-                rw [upd_other _ _ _ _ this]; exact hrel w (allLt_mem hall hw)
-              obtain ⟨h', c', g', r, st⟩ := leaf_step ds s.vars hd lf hls hsrc y
-                (by rw [hev, hrel v hv]; exact hy) (s.h.next + allocBound (.mut v [] lf) + 1)
-                (by have := liveCount_le_next s.h; simp only [allocBound]; omega)
-              refine ⟨{ h := h', vars := upd s.vars v c' }, ?_, put_back i hrel htmp v hv y 2 h' c' g' st⟩
-              have hw : walkMut (s.h.next + allocBound (.mut v [] lf) + 1) ds s.vars s.h (s.vars v) [] lf = some (h', c') := by
-                simp only [walkMut]; exact r
+            have hsrc : ∀ w ∈ lf.vars, s.vars w = upd s.vars v .null w ∧ w < nslots := by
+              intro w hw
+              have : w ≠ v := by intro e; subst e; exact hnv hw
+              exact ⟨(upd_other _ _ _ _ this).symm, lt_slots (allLt_mem hall hw)⟩
+            have hev : lf.eval (fun w => absCell g (upd s.vars v .null w)) = lf.eval σ := by
+              apply LeafS.eval_congr
+              intro w hw
+              have : w ≠ v := by intro e; subst e; exact hnv hw
+              rw [upd_other _ _ _ _ this]; exact hrel w (allLt_mem hall hw)
+            obtain ⟨h', c', g', r, st⟩ := walk_step ds s.vars lf hls hsrc p s.h _ g (s.vars v) hd y
+              (by rw [hev, hrel v hv]; exact hy) (s.h.next + allocBound (.mut v p lf) + 1)
+              (by have := liveCount_le_next s.h; simp only [allocBound]; omega)
+            refine ⟨{ h := h', vars := upd s.vars v c' }, ?_, put_back i hrel htmp v hv y _ h' c' g' st⟩
+            cases p with
+            | cons st p' => simp only [dstep, r, Option.map]
+            | nil =>
               cases lf with
               | assign src =>
                 cases src with
-                | var w => exact absurd rfl (hna w)
-                | lit x => simp only [dstep, hw, Option.map]
-              | _ => simp only [dstep, hw, Option.map]
+                | var w => exact absurd ⟨rfl, rfl⟩ (hna w)
+                | lit x => simp only [dstep, r, Option.map]
+              | _ => simp only [dstep, r, Option.map]
+          cases p with
+          | cons st p' => exact heldCase (by intro w hh; cases hh.1)
+          | nil =>
             cases lf with
             | assign src =>
               cases src with
-              | var w => exact assignVarCase w rfl
-              | lit x => exact heldCase (by intro w hh; cases hh)
-            | _ => exact heldCase (by intro w hh; cases hh)
-      · cases hspec
+              | var w => exact assignVarCase w rfl rfl
+              | lit x => exact heldCase (by intro w hh; cases hh.2)
+            | _ => exact heldCase (by intro w hh; cases hh.2)
+    · cases hspec
 
 end Nstd.Variant.Deep
